@@ -13,6 +13,7 @@ import (
 	"crypto/x509"
 	"crypto/x509/pkix"
 	"encoding/json"
+	"errors"
 	"fmt"
 	"io"
 	"math/big"
@@ -61,7 +62,12 @@ type c25Caller struct {
 	Direct  bool   // no stream delegation at all: handler called directly
 	Refused bool   // the statement requires refusal (no verified certificate / never registered token)
 	Seed    string // "victim": DHT pre-seeded with hostnames/routes/custom binding under this caller's token
-	GetErr  bool   // reading this caller's token record fails
+	// TokenAnswer: what the DHT answers when this caller's token record is looked up:
+	// "" (the real store), error | deadline | stale (the Get fails with a generic error,
+	// context.DeadlineExceeded, chord.ErrKVStaleOwnership), undecodable (a stored value that is
+	// not a Node). TokenStored: a proper registration record exists underneath the failing lookup.
+	TokenAnswer string
+	TokenStored bool
 }
 
 // tokens: W = registered client; V = never registered (but the DHT holds hostnames under its token, as
@@ -91,6 +97,12 @@ func c25Callers(thorough bool) []c25Caller {
 		{Name: "unregistered-v1-with-id-of-registered-v1", CN: "v1:1001:tokV1", Refused: true, Seed: "victim"},
 		{Name: "unregistered-v1-with-id-of-registered-v2", CN: "v1:1002:tokV2", Refused: true, Seed: "victim"},
 		{Name: "unregistered-v2-with-id-of-registered-v1", CN: c25V2CN(1001, "key-of-V3"), Refused: true, Seed: "victim"},
+		// the registration cannot be positively established: the lookup of the token record fails, or
+		// the stored record cannot be decoded
+		{Name: "token-lookup-generic-error", CN: "v1:2009:tokE1", Refused: true, Seed: "victim", TokenAnswer: "error"},
+		{Name: "token-lookup-deadline-exceeded", CN: "v1:2010:tokE2", Refused: true, Seed: "victim", TokenAnswer: "deadline"},
+		{Name: "token-lookup-stale-ownership", CN: "v1:2011:tokE3", Refused: true, Seed: "victim", TokenAnswer: "stale"},
+		{Name: "token-record-undecodable", CN: "v1:2012:tokE4", Refused: true, Seed: "victim", TokenAnswer: "undecodable"},
 		{Name: "registered-v1", CN: "v1:1001:" + c25TokW, Seed: "victim"},
 		{Name: "registered-v2", CN: c25V2CN(1002, "key-of-W2"), Seed: "victim"},
 	}
@@ -100,7 +112,9 @@ func c25Callers(thorough bool) []c25Caller {
 			c25Caller{Name: "subject-v2-id-not-a-number", CN: "v2:xyz:abc", Refused: true},
 			c25Caller{Name: "unregistered-case-variant-of-registered-token", CN: "v1:2006:TOKW", Refused: true, Seed: "victim"},
 			c25Caller{Name: "unregistered-v1-token-equal-to-registered-v2-common-name-prefix", CN: "v1:2007:v2:1002", Refused: true, Seed: "victim"},
-			c25Caller{Name: "token-record-unreadable", CN: "v1:2008:tokE", Refused: true, Seed: "victim", GetErr: true},
+			c25Caller{Name: "registered-but-token-lookup-generic-error", CN: "v1:2013:tokE5", Refused: true, Seed: "victim", TokenAnswer: "error", TokenStored: true},
+			c25Caller{Name: "registered-but-token-lookup-deadline-exceeded", CN: "v1:2014:tokE6", Refused: true, Seed: "victim", TokenAnswer: "deadline", TokenStored: true},
+			c25Caller{Name: "v2-token-lookup-stale-ownership", CN: c25V2CN(2015, "key-of-E7"), Refused: true, Seed: "victim", TokenAnswer: "stale"},
 			c25Caller{Name: "registered-old-format", CN: "v1:1003:tokOld", Seed: "victim"},
 		)
 	}
@@ -267,7 +281,7 @@ func (w *c25World) reset(callers ...c25Caller) {
 	w.resolver.mu.Lock()
 	w.resolver.m = map[string]string{}
 	w.resolver.mu.Unlock()
-	getErr := map[string]bool{}
+	getErr := map[string]error{}
 	for _, caller := range callers {
 		if caller.Seed != "victim" {
 			continue
@@ -289,14 +303,27 @@ func (w *c25World) reset(callers ...c25Caller) {
 		w.resolver.mu.Lock()
 		w.resolver.m[name] = content
 		w.resolver.mu.Unlock()
-		if caller.GetErr {
-			getErr[tun.ClientTokenKey(ct)] = true
+		tokenKey := tun.ClientTokenKey(ct)
+		if caller.TokenStored {
+			b, _ := ident.MarshalVT()
+			must(w.kv.mem.Put(ctx, []byte(tokenKey), b))
+		}
+		switch caller.TokenAnswer {
+		case "error":
+			getErr[tokenKey] = errors.New("kv: injected failure")
+		case "deadline":
+			getErr[tokenKey] = context.DeadlineExceeded
+		case "stale":
+			getErr[tokenKey] = chord.ErrKVStaleOwnership
+		case "undecodable":
+			// field 1 (varint id) followed by a length-delimited field announcing more bytes than present
+			must(w.kv.mem.Put(ctx, []byte(tokenKey), []byte{0x08, 0x01, 0x12, 0x64, 0x01}))
 		}
 	}
 	if len(getErr) > 0 {
 		w.kv.getHook = func(k string) ([]byte, error, bool) {
-			if getErr[k] {
-				return nil, fmt.Errorf("kv: injected failure"), true
+			if e, ok := getErr[k]; ok {
+				return nil, e, true
 			}
 			return nil, nil, false
 		}
